@@ -97,6 +97,8 @@ def events(A, f: Func) -> List[Ev]:
                 out.append(Ev('publish', ci.node, cfg.node_containing(ci.node), ci.name, ci=ci))
                 continue
             hit = False
+            if ci.kind == 'ctor' and ci.name in ('_ImmutableTaskList', '_ChildrenList', '_PredecessorsList', '_SuccessorsList'):
+                continue     # a new facade object: its own `_list` field is not relation state of any task
             for t in ci.targets:
                 if t is None:
                     continue
@@ -184,6 +186,19 @@ def covered(cfg, event_nodes: List[Node]) -> Set[int]:
                 ids.add(h.id)
                 changed = True
     return ids
+
+
+def guard_anchor(cfg, cn: Node, since: Optional[Node]) -> Node:
+    """the outermost test (after `since`, e.g. a loop header) that decides whether cn runs: when the conditions between
+    `since` and cn have been accepted, reaching that test counts as meeting the event"""
+    best = cn
+    dom = cfg.dominators().get(cn.id, set())
+    for i in sorted(dom):
+        t = cfg.nodes[i]
+        if t.kind == 'test' and t is not cn and (since is None or (cfg.dominates(since, t) and t is not since)):
+            if cfg.dominates(t, best):
+                best = t
+    return best
 
 
 def escaping_path(cfg, avoid: Set[int]) -> bool:
@@ -428,7 +443,7 @@ class A:
     def must_pass(self, o, f, evs, noop_nodes, what):
         """every accepted path (entry to a normal exit) meets one of the events, except the documented no-op exits"""
         cfg = cfg_of(f)
-        cov = covered(cfg, [e.cn for e in evs])
+        cov = covered(cfg, [e.cn if isinstance(e, Ev) else e for e in evs])
         cov |= {n.id for n in noop_nodes if n is not None}
         if escaping_path(cfg, cov):
             o.refute(f, f.node, what, f"{what}: some accepted path returns without performing the documented effect "
@@ -441,8 +456,8 @@ def check(ctx):
     a = A(ctx)
     ctx.assume("Task defines no __eq__/__hash__: == and `in` on tasks decide object identity")
     ctx.assume("term expansion assumes no aliasing writes between a definition and its use inside one function")
-    for part in PARTS:
-        part(a, ctx)
+    for p in PARTS:
+        p(a, ctx)
 
 
 PARTS = []
@@ -451,6 +466,1378 @@ PARTS = []
 def part(fn):
     PARTS.append(fn)
     return fn
+
+
+# ====================================================================================================== wiring
+@part
+def wiring(a: A, ctx):
+    o = ctx.ob('wiring', 'R4',
+               "list facades are built over their owner and the owner's raw list by reference (children: plus the "
+               "publish callback that stores the list back); WBS.roots is the sentinel's children facade", floor=9)
+
+    def run(o):
+        prog = a.prog
+        # constructors: which facade attribute keeps the owner / the list
+        base_init = a.fn('task._ImmutableTaskList.__init__')
+        st = [(s, t, v) for s, t, v in facts.attr_stores(base_init, LIST)]
+        if len(st) == 1 and a.is_self(base_init, st[0][1].value) and a.is_param(base_init, st[0][2], 1):
+            o.site(base_init, st[0][0], 'self._list = _list (no copy)')
+        else:
+            o.refute(base_init, base_init.node, '_list', "the list facade does not keep the list object it is given "
+                                                         "(expected `self._list = _list`, by reference)")
+        for cls in ('_ChildrenList', '_PredecessorsList', '_SuccessorsList'):
+            init = a.fn(f'task.{cls}.__init__')
+            own = [(s, t, v) for s, t, v in facts.attr_stores(init) if a.is_self(init, t.value) and a.is_param(init, v, 1)]
+            sup = [c for c in facts.calls_named(init, '__init__') if len(c.args) == 1 and a.is_param(init, c.args[0], 2)]
+            if len(own) == 1 and sup:
+                a.owner_attr[cls] = own[0][1].attr
+                o.site(init, own[0][0], f"owner kept in {unmangle(own[0][1].attr)}, list handed to the base class")
+            else:
+                o.undecided(init, init.node, f'{cls}.__init__', "constructor does not store its first argument as the owner "
+                                                                "and pass its second one to the base class")
+        # getters
+        for prop, cls, fld in (('children', '_ChildrenList', '_Task__children'),
+                               ('predecessors', '_PredecessorsList', '_Task__predecessors'),
+                               ('successors', '_SuccessorsList', '_Task__successors')):
+            g = a.fn(f'task.Task.{prop}')
+            rets = returns_of(g)
+            if len(rets) != 1:
+                o.undecided(g, g.node, prop, "getter with several returns")
+                continue
+            v = a.xp(g, rets[0].value)
+            if not (isinstance(v, ast.Call) and isinstance(v.func, ast.Name) and v.func.id == cls and len(v.args) >= 2):
+                o.undecided(g, rets[0], rets[0], f"getter does not return {cls}(owner, list ...)")
+                continue
+            if not a.is_self(g, v.args[0]):
+                o.refute(g, rets[0], v.args[0], f"the {prop} facade is built for `{src(v.args[0])}` instead of the task itself")
+                continue
+            if not a.is_self_attr(g, v.args[1], fld):
+                t = norm_list(v.args[1])
+                if t[0] == 'filter' and list_source(t) is not None and a.is_self_attr(g, list_source(t), fld):
+                    o.refute(g, rets[0], v.args[1], f"the {prop} facade receives a copy of {unmangle(fld)}: it must share the "
+                                                    f"task's list object (a facade kept by the caller goes stale)")
+                else:
+                    o.refute(g, rets[0], v.args[1], f"the {prop} facade is built over `{src(v.args[1])}` instead of "
+                                                    f"self.{unmangle(fld)}")
+                continue
+            if prop == 'children':
+                cb = v.args[2] if len(v.args) > 2 else None
+                cbf = prog.find_method('Task', unmangle(cb.attr)) if isinstance(cb, ast.Attribute) and a.is_self(g, cb.value) else None
+                if cbf is None:
+                    o.undecided(g, rets[0], rets[0], "publish callback of the children facade is not a method of the task")
+                    continue
+                sts = facts.attr_stores(cbf)
+                if len(sts) == 1 and a.is_self_attr(cbf, sts[0][1], fld) and a.is_param(cbf, sts[0][2], 1):
+                    o.site(cbf, sts[0][0], 'publish callback stores the list it is given')
+                else:
+                    o.refute(cbf, cbf.node, cbf.name, f"the publish callback does not store the given list into self.{unmangle(fld)}")
+                    continue
+            o.site(g, rets[0], src(v)[:90])
+        # WBS.roots
+        g = a.fn('wbs.WBS.roots')
+        rets = returns_of(g)
+        v = a.xp(g, rets[0].value) if len(rets) == 1 else None
+        if v is not None and isinstance(v, ast.Attribute) and v.attr == 'children' and a.is_self_attr(g, v.value, ROOT):
+            o.site(g, rets[0], 'roots -> sentinel.children')
+        else:
+            o.refute(g, g.node, 'roots', "WBS.roots is not the children facade of the sentinel root task")
+    ctx.guarded(o, run)
+
+
+# ====================================================================================================== delegation
+def _single_store(a: A, o, f, prop, what):
+    """the one property store `X.<prop> = V` / `X.<prop> += V` of a facade method (other stores to relation
+    properties are left to leftovers())"""
+    evs = [e for e in a.events(f) if e.kind == 'setter' and e.name == prop and e.stmt is not None]
+    if not evs:
+        others = [e for e in a.events(f)]
+        if others:
+            o.refute(f, others[0].node, others[0].node,
+                     f"{what}: the documented primitive (assignment of `{prop}`) is not used; found `{src(others[0].node)[:70]}`")
+            for e in others:
+                e.used = True
+        else:
+            o.refute(f, f.node, what, f"{what}: no assignment of `{prop}`: the call has no effect")
+        return None
+    if len(evs) > 1:
+        o.undecided(f, evs[1].node, evs[1].node, f"{what}: several assignments of `{prop}`")
+        for e in evs:
+            e.used = True
+        return None
+    evs[0].used = True
+    return evs[0]
+
+
+def _store_value(a: A, f, ev):
+    """(is_aug, expanded right-hand side) of a setter store event"""
+    st = ev.stmt
+    aug = isinstance(st, ast.AugAssign)
+    return aug, a.xp(f, st.value, ev.cn), st
+
+
+def _membership_atom(a: A, f, atom, task_param: str, owner_rel=None):
+    """`task in <this facade's list>`: self._list, self, or the owner's relation"""
+    if isinstance(atom, ast.Compare) and len(atom.ops) == 1 and isinstance(atom.ops[0], (ast.In, ast.NotIn)):
+        l, r = atom.left, atom.comparators[0]
+        if isinstance(l, ast.Name) and l.id == task_param:
+            if a.is_self_attr(f, r, LIST) or a.is_self(f, r) or (owner_rel is not None and owner_rel(r)):
+                return isinstance(atom.ops[0], ast.In)
+    return None
+
+
+def _check_remove_shape(a: A, o, f, owner_prop, live_ok: bool):
+    """shared by _ChildrenList.remove and the link lists' remove:  owner.<prop> = [x for x in <list> if x != task],
+    only when the task is a member (otherwise False and nothing happens), True afterwards"""
+    what = f"{f.cls}.remove"
+    t = f.params[1]
+    ev = _single_store(a, o, f, owner_prop, what)
+    if ev is None:
+        return
+    if not a.is_owner(f, ev.node.value):
+        o.refute(f, ev.stmt, ev.node, f"{what}: assigns `{src(ev.node)}`; the documented primitive is the `{owner_prop}` "
+                                      f"assignment of the facade's owner")
+        return
+    aug, v, st = _store_value(a, f, ev)
+    if aug:
+        o.refute(f, st, st, f"{what}: augmented assignment adds to the list instead of taking the task out")
+        return
+    term = norm_list(v)
+    if term[0] != 'filter':
+        o.undecided(f, st, st.value, f"{what}: new list is not a comprehension over the old list")
+        return
+    srcx = list_source(term)
+
+    def owner_rel(e):
+        return isinstance(e, ast.Attribute) and e.attr == owner_prop and a.is_owner(f, e.value)
+
+    if owner_rel(srcx):
+        pass
+    elif a.is_self_attr(f, srcx, LIST) or a.is_self(f, srcx):
+        if not live_ok:
+            o.refute(f, st, st.value, f"{what}: the new list is built from the facade's own `_list`, a snapshot that goes stale "
+                                      f"as soon as the setter rebinds the owner's list; expected the owner's current `{owner_prop}`")
+            return
+    else:
+        o.refute(f, st, st.value, f"{what}: the new list is built from `{src(srcx)}`, not from the edited list")
+        return
+    kinds = [cmp_kind(c, term[2], ast.Name(id=t, ctx=ast.Load())) for c in term[3]] if term[2] else []
+    if not kinds:
+        o.refute(f, st, st.value, f"{what}: the new list is an unfiltered copy: the task is not taken out")
+        return
+    if len(kinds) > 1 or kinds[0] == '?':
+        if any(k.startswith('id-') for k in kinds):
+            o.refute(f, st, st.value, f"{what}: tasks are filtered by comparing ids; every task with an equal id is dropped, "
+                                      f"expected identity of the task (`x != task`)")
+        else:
+            o.undecided(f, st, st.value, f"{what}: filter condition not understood")
+        return
+    if kinds[0] == 'eq':
+        o.refute(f, st, st.value, f"{what}: filter keeps only the task (`==`) instead of everything but the task (`!=`)")
+        return
+    if kinds[0] in ('id-ne', 'id-eq'):
+        o.refute(f, st, st.value, f"{what}: tasks are filtered by comparing ids instead of task identity; other tasks carrying "
+                                  f"an equal id are dropped too")
+        return
+    # path: only `task in list`; no-op exit returns False, effect exit returns True
+    cfg = cfg_of(f)
+    bad = False
+    for atom, pol, _ in path_atoms(a, f, ev.cn):
+        m = _membership_atom(a, f, atom, t, owner_rel)
+        if m is None:
+            o.undecided(f, st, atom, f"{what}: removal depends on a condition the rule does not know")
+            bad = True
+        elif (m == pol) is False:
+            o.refute(f, st, atom, f"{what}: the removal runs only when the task is NOT in the list")
+            bad = True
+    if bad:
+        return
+    noops = []
+    for r in returns_of(f):
+        rn = cfg.node_of(r)
+        atoms = path_atoms(a, f, rn)
+        notmember = any(_membership_atom(a, f, at, t, owner_rel) is not None and
+                        (_membership_atom(a, f, at, t, owner_rel) != p) for at, p, _ in atoms)
+        if notmember:
+            noops.append(rn)
+            if const_of(r.value) is not False:
+                o.refute(f, r, r, f"{what}: returns `{src(r)}` when the task is not in the list; documented: False")
+                bad = True
+        elif cfg.can_reach(ev.cn, rn) and const_of(r.value) is not True:
+            o.refute(f, r, r, f"{what}: returns `{src(r)}` after removing the task; documented: True (WBS.remove relies on it)")
+            bad = True
+    if bad or not a.must_pass(o, f, [ev], noops, what):
+        return
+    o.site(f, st, f"{src(ev.node)} = {src(v)[:70]}")
+
+
+@part
+def delegation_children(a: A, ctx):
+    o = ctx.ob('delegation.children_list', 'R4',
+               "_ChildrenList.append(t) is `t.parent = owner`; remove(t) is `owner.children = [x for x in list if x != t]` "
+               "for members (True) and nothing for non-members (False); no other relation effect", floor=2)
+
+    def run(o):
+        f = a.fn('task._ChildrenList.append')
+        ev = _single_store(a, o, f, 'parent', '_ChildrenList.append')
+        if ev is not None:
+            aug, v, st = _store_value(a, f, ev)
+            if not a.is_param(f, ev.node.value, 1):
+                o.refute(f, st, ev.node, f"append: re-parents `{src(ev.node.value)}` instead of the appended task")
+            elif aug or not a.is_owner(f, v):
+                o.refute(f, st, st, f"append: the task's parent becomes `{src(v)}`; documented: the owner of the list")
+            else:
+                extra = path_atoms(a, f, ev.cn)
+                if extra:
+                    o.refute(f, st, extra[0][0], "append: the re-parenting is conditional (`" + src(extra[0][0]) +
+                             "`): for the other case the task is not put last")
+                elif a.must_pass(o, f, [ev], [], 'append'):
+                    o.site(f, st, src(st))
+        a.leftovers(o, f, 'append')
+        f = a.fn('task._ChildrenList.remove')
+        _check_remove_shape(a, o, f, 'children', live_ok=True)
+        a.leftovers(o, f, 'remove')
+    ctx.guarded(o, run)
+
+
+@part
+def delegation_links(a: A, ctx):
+    o = ctx.ob('delegation.link_lists', 'R11',
+               "predecessor / successor facades: append(t) is `owner.rel = [old ...] + [t]` (old items first, read from the "
+               "owner), remove(t) is the owner's list filtered by `x != t`; each facade edits its own relation", floor=4)
+
+    def run(o):
+        for cls, rel in LINK_FACADES.items():
+            f = a.fn(f'task.{cls}.append')
+            what = f'{cls}.append'
+            t = f.params[1]
+            ev = _single_store(a, o, f, rel, what)
+            if ev is None:
+                wrong = [e for e in a.events(f) if e.kind == 'setter']
+                a.leftovers(o, f, what)
+            else:
+                _link_append(a, o, f, ev, rel, t, what)
+                a.leftovers(o, f, what)
+            f = a.fn(f'task.{cls}.remove')
+            _check_remove_shape(a, o, f, rel, live_ok=False)
+            a.leftovers(o, f, f'{cls}.remove')
+    ctx.guarded(o, run)
+
+
+def _link_append(a: A, o, f, ev, rel, t, what):
+    aug, v, st = _store_value(a, f, ev)
+    if not a.is_owner(f, ev.node.value):
+        o.refute(f, st, ev.node, f"{what}: assigns `{src(ev.node)}` instead of the owner's `{rel}`")
+        return
+
+    def is_task(e):
+        return isinstance(e, ast.Name) and e.id == t
+
+    def owner_rel(e):
+        return isinstance(e, ast.Attribute) and e.attr == rel and a.is_owner(f, e.value)
+
+    if aug:
+        # owner.rel += [t]  ==  owner.rel = owner.rel.__add__([t])  (old first, by _ImmutableTaskList.__add__)
+        term = norm_list(v)
+        if isinstance(st.op, ast.Add) and (is_task(v) or (term[0] == 'lit' and len(term[1]) == 1 and is_task(term[1][0]))):
+            if not path_atoms(a, f, ev.cn) and a.must_pass(o, f, [ev], [], what):
+                o.site(f, st, src(st))
+            else:
+                o.refute(f, st, st, f"{what}: the assignment is conditional")
+        else:
+            o.undecided(f, st, st, f"{what}: augmented assignment of an unexpected value")
+        return
+    term = norm_list(v)
+    if term[0] != 'concat' or len(term[1]) != 2:
+        if term[0] == 'lit' or (term[0] == 'filter' and not any(is_task(x) for x in ast.walk(v))):
+            o.refute(f, st, st.value, f"{what}: the new list `{src(v)[:60]}` is not old items + [task]")
+        else:
+            o.undecided(f, st, st.value, f"{what}: new list is not a concatenation of the old items and [task]")
+        return
+    p0, p1 = term[1]
+
+    def is_new(p):
+        return p[0] == 'lit' and len(p[1]) == 1 and is_task(p[1][0])
+
+    def old_src(p):
+        return list_source(p) if p[0] in ('filter', 'ref') and (p[0] == 'ref' or not p[3]) else None
+
+    if is_new(p0) and old_src(p1) is not None:
+        o.refute(f, st, st.value, f"{what}: the new task is put FIRST (`[task] + old`); documented: appended after the old items")
+        return
+    if not (is_new(p1) and old_src(p0) is not None):
+        o.undecided(f, st, st.value, f"{what}: new list is not `old items + [task]`")
+        return
+    s0 = old_src(p0)
+    if a.is_self_attr(f, s0, LIST) or a.is_self(f, s0):
+        o.refute(f, st, st.value, f"{what}: old items are read from the facade's own `_list`, a snapshot that is stale after the "
+                                  f"first edit through this facade (the setter rebinds the owner's list); expected the "
+                                  f"owner's current `{rel}`")
+        return
+    if not owner_rel(s0):
+        o.refute(f, st, st.value, f"{what}: old items are read from `{src(s0)}` instead of the owner's `{rel}`")
+        return
+    extra = path_atoms(a, f, ev.cn)
+    if extra:
+        o.refute(f, st, extra[0][0], f"{what}: the assignment is conditional (`{src(extra[0][0])}`)")
+        return
+    if a.must_pass(o, f, [ev], [], what):
+        o.site(f, st, f"{src(ev.node)} = {src(v)[:70]}")
+
+
+def _returns_param(a: A, o, f, i, what):
+    """every return yields parameter i (operators hand back their right operand)"""
+    rets = returns_of(f)
+    ok = bool(rets)
+    for r in rets:
+        v = a.xp(f, r.value) if r.value is not None else None
+        if not (v is not None and a.is_param(f, v, i)):
+            ok = False
+    cfg = cfg_of(f)
+    # falling off the end returns None
+    if ok and any(p.ast is not None and not isinstance(p.ast, ast.Return) or p.kind == 'branch' for p in cfg.exit.pred):
+        ok = False
+    if not ok:
+        o.refute(f, f.node, f'{what} return', f"{what}: does not return its right operand `{f.params[i]}` on every path "
+                                              f"(chains like `a >> b >> c` depend on it)")
+    return ok
+
+
+def _rel_plus_other(a: A, o, f, ev, recv_ok, rel, other_i, what):
+    """`R.rel += other`  or  `R.rel = R.rel + other` / `R.rel.__add__(other)`  (old items first)"""
+    aug, v, st = _store_value(a, f, ev)
+    if not recv_ok(ev.node.value):
+        o.refute(f, st, ev.node, f"{what}: assigns `{src(ev.node)}`; documented receiver differs")
+        return False
+    if aug:
+        if isinstance(st.op, ast.Add) and a.is_param(f, v, other_i):
+            return True
+        if not isinstance(st.op, ast.Add):
+            o.refute(f, st, st, f"{what}: `{src(st)}` is not an addition to the list")
+        else:
+            o.refute(f, st, st, f"{what}: adds `{src(v)}` instead of the right operand `{f.params[other_i]}`")
+        return False
+    term = norm_list(v)
+    if term[0] == 'concat' and len(term[1]) == 2:
+        p0, p1 = term[1]
+        s0, s1 = list_source(p0) if p0[0] in ('ref', 'filter') else None, list_source(p1) if p1[0] in ('ref', 'filter') else None
+
+        def is_rel(e):
+            return e is not None and isinstance(e, ast.Attribute) and e.attr == rel and recv_ok(e.value)
+
+        def is_other(e):
+            return e is not None and (a.is_param(f, e, other_i) or
+                                      (match("_to_list($x)", e) and a.is_param(f, match("_to_list($x)", e)['x'], other_i)))
+        if is_rel(s0) and is_other(s1):
+            return True
+        if is_other(s0) and is_rel(s1):
+            o.refute(f, st, st.value, f"{what}: new items are put before the old ones")
+            return False
+    if a.is_param(f, v, other_i) or (match("_to_list($x)", v) and a.is_param(f, match("_to_list($x)", v)['x'], other_i)):
+        o.refute(f, st, st.value, f"{what}: REPLACES `{rel}` by the operand instead of adding to it")
+        return False
+    o.undecided(f, st, st.value, f"{what}: right-hand side is not `{rel} + other`")
+    return False
+
+
+@part
+def delegation_operators(a: A, ctx):
+    o = ctx.ob('delegation.operators', 'R10',
+               "Task //, <<, >> are `self.children|predecessors|successors += other` returning other; list + is "
+               "`self._list + _to_list(other)` (old first, new list); list <<, >> apply the task operator's assignment to "
+               "every element; WBS // x is `sentinel // x`", floor=7)
+
+    def run(o):
+        for dunder, rel in TASK_OPERATORS.items():
+            f = a.fn(f'task.Task.{dunder}')
+            what = f'Task.{dunder}'
+            stores = [e for e in a.events(f) if e.kind == 'setter' and e.stmt is not None]
+            wrong = [e for e in stores if e.name != rel]
+            if wrong and not [e for e in stores if e.name == rel]:
+                for e in wrong:
+                    e.used = True
+                o.refute(f, wrong[0].stmt, wrong[0].node, f"{what}: edits `{wrong[0].name}`; documented: `{rel}`")
+                a.leftovers(o, f, what)
+                continue
+            ev = _single_store(a, o, f, rel, what)
+            if ev is not None:
+                if _rel_plus_other(a, o, f, ev, lambda e: a.is_self(f, e), rel, 1, what):
+                    extra = path_atoms(a, f, ev.cn)
+                    if extra:
+                        o.refute(f, ev.stmt, extra[0][0], f"{what}: the assignment is conditional (`{src(extra[0][0])}`)")
+                    elif a.must_pass(o, f, [ev], [], what) and _returns_param(a, o, f, 1, what):
+                        o.site(f, ev.stmt, src(ev.stmt))
+            a.leftovers(o, f, what)
+        # list + other
+        f = a.fn('task._ImmutableTaskList.__add__')
+        what = '_ImmutableTaskList.__add__'
+        if a.leftovers(o, f, what) == 0:
+            rets = returns_of(f)
+            if len(rets) != 1:
+                o.undecided(f, f.node, what, "several returns")
+            else:
+                v = a.xp(f, rets[0].value)
+                term = norm_list(v)
+                okshape = term[0] == 'concat' and len(term[1]) == 2
+                if okshape:
+                    s0 = list_source(term[1][0]) if term[1][0][0] in ('ref', 'filter') else None
+                    s1 = list_source(term[1][1]) if term[1][1][0] in ('ref', 'filter') else None
+
+                    def is_mine(e):
+                        return e is not None and (a.is_self_attr(f, e, LIST) or a.is_self(f, e))
+
+                    def is_other(e):
+                        m = match("_to_list($x)", e) if e is not None else None
+                        return m is not None and a.is_param(f, m['x'], 1)
+                    if is_mine(s0) and is_other(s1):
+                        o.site(f, rets[0], src(v))
+                    elif is_other(s0) and is_mine(s1):
+                        o.refute(f, rets[0], rets[0].value, f"{what}: the operand's tasks are put before the list's own tasks; "
+                                                           f"`rel += x` must keep the old items first")
+                    elif is_mine(s0) and s1 is not None and a.is_param(f, s1, 1):
+                        o.undecided(f, rets[0], rets[0].value, f"{what}: operand is not normalised with _to_list (single task operand?)")
+                    else:
+                        o.undecided(f, rets[0], rets[0].value, f"{what}: not `self._list + _to_list(other)`")
+                else:
+                    o.undecided(f, rets[0], rets[0].value, f"{what}: not a concatenation")
+        # list << other, list >> other
+        for dunder, rel in LIST_OPERATORS.items():
+            f = a.fn(f'task._ImmutableTaskList.{dunder}')
+            what = f'_ImmutableTaskList.{dunder}'
+            stores = [e for e in a.events(f) if e.kind == 'setter' and e.stmt is not None]
+            wrong = [e for e in stores if e.name != rel]
+            if wrong and not [e for e in stores if e.name == rel]:
+                for e in wrong:
+                    e.used = True
+                o.refute(f, wrong[0].stmt, wrong[0].node, f"{what}: edits `{wrong[0].name}` of the elements; documented: `{rel}`")
+                a.leftovers(o, f, what)
+                continue
+            ev = _single_store(a, o, f, rel, what)
+            if ev is not None:
+                recv = ev.node.value
+                fo = enclosing_for_binding(f, ev.cn, recv.id) if isinstance(recv, ast.Name) else None
+                it = a.xp(f, fo.iter, cfg_of(f).node_of(fo)) if fo is not None else None
+                if fo is None:
+                    o.refute(f, ev.stmt, ev.node, f"{what}: `{src(ev.node)}` is not applied to the elements of the list")
+                elif not (a.is_self(f, it) or a.is_self_attr(f, it, LIST) or
+                          (is_plain_copy(norm_list(it)) and (a.is_self(f, list_source(norm_list(it))) or
+                                                             a.is_self_attr(f, list_source(norm_list(it)), LIST)))):
+                    o.refute(f, fo, fo.iter, f"{what}: iterates `{src(it)}` instead of the tasks of this list")
+                elif _rel_plus_other(a, o, f, ev, lambda e: True, rel, 1, what):
+                    inner = path_atoms(a, f, ev.cn)
+                    if inner:
+                        o.refute(f, ev.stmt, inner[0][0], f"{what}: some elements are skipped (`{src(inner[0][0])}`)")
+                    elif a.must_pass(o, f, [ev], [], what) and _returns_param(a, o, f, 1, what):
+                        o.site(f, ev.stmt, f"for {src(fo.target)} in {src(it)}: {src(ev.stmt)}")
+            a.leftovers(o, f, what)
+        # WBS // other
+        f = a.fn('wbs.WBS.__floordiv__')
+        what = 'WBS.__floordiv__'
+        rets = returns_of(f)
+        evs = a.events(f)
+        hit = None
+        for r in rets:
+            v = a.xp(f, r.value) if r.value is not None else None
+            m = (match("$r // $x", v) or match("$r.__floordiv__($x)", v)) if v is not None else None
+            if m:
+                hit = (r, v, m)
+        if hit is None or len(rets) != 1:
+            if any(e.kind == 'setter' and e.name == 'children' for e in evs) or not evs:
+                o.undecided(f, f.node, what, "not written as `return sentinel // other`")
+            else:
+                o.refute(f, evs[0].node, evs[0].node, f"{what}: does not delegate to the sentinel's `//`")
+        else:
+            r, v, m = hit
+            for e in evs:
+                if any(x is e.node for x in ast.walk(r)):
+                    e.used = True
+            if not a.is_self_attr(f, m['r'], ROOT):
+                o.refute(f, r, r.value, f"{what}: delegates to `{src(m['r'])}` instead of the sentinel root")
+            elif not a.is_param(f, m['x'], 1):
+                o.refute(f, r, r.value, f"{what}: passes `{src(m['x'])}` instead of the operand")
+            elif path_atoms(a, f, cfg_of(f).node_of(r)):
+                o.refute(f, r, r, f"{what}: delegation is conditional")
+            elif a.leftovers(o, f, what) == 0:
+                o.site(f, r, src(v))
+    ctx.guarded(o, run)
+
+
+@part
+def delegation_wbs(a: A, ctx):
+    o = ctx.ob('delegation.wbs', 'R4',
+               "WBS.roots = v is `sentinel.children = v`; WBS.remove(t) is the recursive search from the sentinel; the search "
+               "asks `current.children.remove(t)` and recurses into every child with the same task", floor=3)
+
+    def run(o):
+        # roots setter
+        f = a.fn('wbs.WBS.roots.setter')
+        what = 'WBS.roots setter'
+        ev = _single_store(a, o, f, 'children', what)
+        if ev is not None:
+            aug, v, st = _store_value(a, f, ev)
+            if not a.is_self_attr(f, ev.node.value, ROOT):
+                o.refute(f, st, ev.node, f"{what}: assigns `{src(ev.node)}` instead of the sentinel's children")
+            elif aug:
+                o.refute(f, st, st, f"{what}: adds to the roots instead of replacing them")
+            elif not a.is_param(f, v, 1):
+                t = norm_list(v)
+                if t[0] == 'filter' and not t[3] and a.is_param(f, list_source(t), 1):
+                    o.site(f, st, src(st))
+                else:
+                    o.refute(f, st, st.value, f"{what}: assigns `{src(v)[:60]}` instead of exactly the given tasks")
+            elif path_atoms(a, f, ev.cn):
+                o.refute(f, st, st, f"{what}: assignment is conditional")
+            elif a.must_pass(o, f, [ev], [], what):
+                o.site(f, st, src(st))
+        a.leftovers(o, f, what)
+
+        # remove
+        f = a.fn('wbs.WBS.remove')
+        what = 'WBS.remove'
+        search = a.fn('wbs.WBS.__remove')
+        calls = [e for e in a.events(f) if e.kind == 'call' and search in e.ci.targets]
+        if not calls:
+            o.refute(f, f.node, what, f"{what}: does not run the recursive search")
+        for e in calls:
+            e.used = True
+            c = e.node
+            if not (len(c.args) == 2 and a.is_param(f, a.xp(f, c.args[0]), 1) and a.is_self_attr(f, a.xp(f, c.args[1]), ROOT)):
+                o.refute(f, c, c, f"{what}: search called as `{src(c)}`; expected (task, sentinel root)")
+            elif path_atoms(a, f, e.cn):
+                o.refute(f, c, c, f"{what}: search is conditional")
+            elif a.must_pass(o, f, [e], [], what):
+                o.site(f, c, src(c))
+        a.leftovers(o, f, what)
+
+        # recursive search
+        f = search
+        what = 'WBS.__remove'
+        tp, cur = f.params[1], f.params[2]
+        direct = [e for e in a.events(f) if e.kind == 'call' and isinstance(e.node, ast.Call) and e.name == 'remove'
+                  and any(t.qual == 'task._ChildrenList.remove' for t in e.ci.targets)]
+        rec = [e for e in a.events(f) if e.kind == 'call' and f in e.ci.targets]
+        ok = True
+        if not direct:
+            o.refute(f, f.node, what, f"{what}: never calls children.remove on the visited task")
+            ok = False
+        for e in direct:
+            e.used = True
+            c = e.node
+            recv = a.xp(f, c.func.value, e.cn)
+            if not (isinstance(recv, ast.Attribute) and recv.attr == 'children' and isinstance(recv.value, ast.Name)
+                    and recv.value.id == cur):
+                o.refute(f, c, c, f"{what}: removes from `{src(recv)}` instead of the children of the visited task `{cur}`")
+                ok = False
+            elif not (len(c.args) == 1 and isinstance(a.xp(f, c.args[0], e.cn), ast.Name) and a.xp(f, c.args[0], e.cn).id == tp):
+                o.refute(f, c, c, f"{what}: removes `{src(c.args[0]) if c.args else ''}` instead of the searched task")
+                ok = False
+            else:
+                for atom, pol, _ in path_atoms(a, f, e.cn):
+                    if match(f"{tp} is None", atom) and not pol:
+                        continue
+                    if match(f"{tp} is not None", atom) and pol:
+                        continue
+                    o.undecided(f, c, atom, f"{what}: removal depends on a condition the rule does not know")
+                    ok = False
+        if not rec:
+            o.refute(f, f.node, 'recursion', f"{what}: does not descend into the children: only root tasks can be removed")
+            ok = False
+        for e in rec:
+            e.used = True
+            c = e.node
+            fo = None
+            if len(c.args) == 2 and isinstance(c.args[1], ast.Name):
+                fo = enclosing_for_binding(f, e.cn, c.args[1].id)
+            if fo is None or not (isinstance(c.args[0], ast.Name) and c.args[0].id == tp):
+                o.refute(f, c, c, f"{what}: recursive call `{src(c)}` is not (searched task, child of the visited task)")
+                ok = False
+                continue
+            it = a.xp(f, fo.iter, cfg_of(f).node_of(fo))
+            src_it = list_source(norm_list(it)) if norm_list(it)[0] in ('ref', 'filter') and not (norm_list(it)[0] == 'filter' and norm_list(it)[3]) else None
+            if not (src_it is not None and isinstance(src_it, ast.Attribute) and src_it.attr in ('children', '_Task__children')
+                    and isinstance(src_it.value, ast.Name) and src_it.value.id == cur):
+                o.refute(f, fo, fo.iter, f"{what}: recursion iterates `{src(it)}` instead of all children of the visited task")
+                ok = False
+        if ok:
+            # result propagation: True only after a successful removal
+            for r in returns_of(f):
+                if const_of(r.value) is True:
+                    conds = cfg_of(f).conditions(cfg_of(f).node_of(r))
+                    good = any(pol and any(any(x is e.node for x in ast.walk(t)) for e in direct + rec) for t, pol in conds)
+                    if not good:
+                        o.refute(f, r, r, f"{what}: returns True without a successful removal")
+                        ok = False
+        if ok and a.leftovers(o, f, what) == 0:
+            o.site(f, direct[0].node, f"{src(direct[0].node)}; recursion over {cur}.children")
+        else:
+            a.leftovers(o, f, what)
+    ctx.guarded(o, run)
+
+
+@part
+def delegation_remove_all(a: A, ctx):
+    o = ctx.ob('delegation.remove_all', 'R4',
+               "remove_all queries with the caller's key and filters, removes every match through the single-task removal "
+               "and returns the matches", floor=2)
+
+    def run(o):
+        for q, single in (('task._TaskList.remove_all', 'remove'), ('wbs.WBS.remove_all', None)):
+            f = a.fn(q)
+            what = q.split('.', 1)[1]
+            key_p = f.params[1]
+            kw = f.node.args.kwarg.arg if f.node.args.kwarg else None
+            cfg = cfg_of(f)
+            # the removal calls
+            if single:
+                rem = [e for e in a.events(f) if e.kind == 'call' and e.name == 'remove' and isinstance(e.node, ast.Call)
+                       and a.is_self(f, e.node.func.value)]
+            else:
+                rem = [e for e in a.events(f) if e.kind == 'call' and e.name in ('__remove', 'remove') and isinstance(e.node, ast.Call)
+                       and a.is_self(f, e.node.func.value)]
+            if not rem:
+                o.refute(f, f.node, what, f"{what}: never removes a task through the single-task removal")
+                a.leftovers(o, f, what)
+                continue
+            good = True
+            query = None
+            for e in rem:
+                e.used = True
+                c = e.node
+                arg0 = c.args[0] if c.args else None
+                fo = enclosing_for_binding(f, e.cn, arg0.id) if isinstance(arg0, ast.Name) else None
+                if fo is None:
+                    o.refute(f, c, c, f"{what}: `{src(c)}` does not remove the matched tasks one by one")
+                    good = False
+                    continue
+                if e.name == '__remove' and not (len(c.args) == 2 and a.is_self_attr(f, a.xp(f, c.args[1], e.cn), ROOT)):
+                    o.refute(f, c, c, f"{what}: the search for a match does not start at the sentinel root")
+                    good = False
+                    continue
+                it, itn, _ = resolve(f, fo.iter, cfg.node_of(fo))
+                query = (it, itn, fo)
+                inner = path_atoms(a, f, e.cn, since=cfg.node_of(fo))
+                if inner:
+                    o.refute(f, c, inner[0][0], f"{what}: some matches are not removed (`{src(inner[0][0])}`)")
+                    good = False
+            if not good or query is None:
+                a.leftovers(o, f, what)
+                continue
+            it, itn, fo = query
+            # the query: self(key, **kwargs) / self.tasks(key, **kwargs)
+            okq = isinstance(it, ast.Call) and (a.is_self(f, it.func) if single else
+                                                (isinstance(it.func, ast.Attribute) and it.func.attr == 'tasks' and a.is_self(f, it.func.value)))
+            if not okq:
+                t = norm_list(it)
+                o.undecided(f, fo, fo.iter, f"{what}: the removed tasks are not the result of the list query `{'self' if single else 'self.tasks'}(key, **kwargs)`")
+                a.leftovers(o, f, what)
+                continue
+            has_key = (len(it.args) >= 1 and isinstance(it.args[0], ast.Name) and it.args[0].id == key_p) or \
+                any(k.arg == 'key' and isinstance(k.value, ast.Name) and k.value.id == key_p for k in it.keywords)
+            has_kw = any(k.arg is None and isinstance(k.value, ast.Name) and k.value.id == kw for k in it.keywords)
+            if not has_key or not has_kw:
+                o.refute(f, fo, it, f"{what}: the query `{src(it)}` drops the caller's " + ('key' if not has_key else 'keyword filters') +
+                         ": more tasks than the matching ones are removed")
+                a.leftovers(o, f, what)
+                continue
+            # returns: the matches (or an empty list when the query is empty)
+            bad = False
+            for r in returns_of(f):
+                v, vn, _ = resolve(f, r.value, cfg.node_of(r)) if r.value is not None else (None, None, 0)
+                if v is not None and vn is itn and same(v, it):
+                    continue
+                if v is not None and match("_ImmutableTaskList([])", v):
+                    atoms = path_atoms(a, f, cfg.node_of(r))
+                    if any(not pol and isinstance(resolve(f, at, cfg.node_containing(tst))[0], ast.Call) and
+                           same(resolve(f, at, cfg.node_containing(tst))[0], it) for at, pol, tst in
+                           [(t0, p0, t0x) for (t0, p0, t0x) in _raw_atoms(f, cfg.node_of(r))]):
+                        continue
+                o.refute(f, r, r, f"{what}: returns `{src(r.value) if r.value is not None else None}` instead of the removed tasks")
+                bad = True
+            noops = [cfg.node_of(r) for r in returns_of(f) if r.value is not None and match("_ImmutableTaskList([])", r.value)]
+            if not bad and a.must_pass(o, f, rem, noops, what) and a.leftovers(o, f, what) == 0:
+                o.site(f, fo, f"for {src(fo.target)} in {src(it)}: {src(rem[0].node)}")
+            else:
+                a.leftovers(o, f, what)
+    ctx.guarded(o, run)
+
+
+def _raw_atoms(f, cn):
+    """unexpanded (atom, polarity, test) of the non-loop branches dominating cn"""
+    cfg = cfg_of(f)
+    out = []
+    for t, pol in cfg.conditions(cn):
+        for at, p in facts.split_conj(t, pol):
+            at, p = strip_not(at, p)
+            out.append((at, p, t))
+    return out
+
+
+# ====================================================================================================== provenance
+ORDER_BREAKERS = ('reversed', 'sorted', 'set', 'frozenset')
+
+
+def is_arg(a: A, f, e, at, i=1, depth=0):
+    """e denotes the tasks of parameter i in the given order: the parameter, _to_list(parameter), a plain copy"""
+    if depth > 6 or e is None:
+        return False
+    e, at, _ = resolve(f, e, at)
+    if isinstance(e, ast.Name):
+        return e.id == f.params[i] and not any(d.kind != 'param' for d in flow_of(f).reaching(e.id, at)) if at is not None \
+            else e.id == f.params[i]
+    m = match("_to_list($x)", e)
+    if m:
+        return is_arg(a, f, m['x'], at, i, depth + 1)
+    t = norm_list(e)
+    if t[0] == 'filter' and not t[3]:
+        return is_arg(a, f, t[1], at, i, depth + 1)
+    return False
+
+
+def classify_list(a: A, f, e, at, i=1):
+    """('arg',) | ('arg-reordered', how) | ('live', field, at) | ('copy', field, at) | ('other', expr)
+    of a list expression evaluated at cfg node `at` in a Task method"""
+    e, at, _ = resolve(f, e, at)
+    if is_arg(a, f, e, at, i):
+        return ('arg',)
+    if isinstance(e, ast.Call) and isinstance(e.func, ast.Name) and e.func.id in ORDER_BREAKERS and e.args and \
+            is_arg(a, f, e.args[0], at, i):
+        return ('arg-reordered', e.func.id)
+    if isinstance(e, ast.Subscript) and isinstance(e.slice, ast.Slice) and e.slice.step is not None and is_arg(a, f, e.value, at, i):
+        return ('arg-reordered', 'slice with a step')
+    if isinstance(e, ast.Attribute) and a.is_self(f, e.value) and e.attr in REL_FIELDS:
+        return ('live', e.attr, at)
+    t = norm_list(e)
+    if t[0] == 'filter' and not t[3]:
+        inner = classify_list(a, f, t[1], at, i)
+        if inner[0] == 'live':
+            return ('copy', inner[1], at)
+        if inner[0] in ('copy', 'arg', 'arg-reordered'):
+            return inner
+    return ('other', e)
+
+
+def elem_class(a: A, f, recv, cn, i=1):
+    """provenance of a loop variable used as the receiver of a write at cfg node cn: (class tuple, for statement)"""
+    if not isinstance(recv, ast.Name):
+        return None, None
+    fo = enclosing_for_binding(f, cn, recv.id)
+    if fo is None:
+        return None, None
+    hn = cfg_of(f).node_of(fo)
+    return classify_list(a, f, fo.iter, hn, i), fo
+
+
+def _write_arg_is_self(f, w):
+    c = w.node
+    return isinstance(c, ast.Call) and len(c.args) >= 1 and isinstance(c.args[-1], ast.Name) and c.args[-1].id == f.self_name
+
+
+# ====================================================================================================== setters exact
+@part
+def children_setter(a: A, ctx):
+    o = ctx.ob('setters_exact.children', 'R4',
+               "Task.children = v: the shared list object is emptied in place (never rebound), every old child loses its "
+               "parent, and the elements of v are re-parented one by one in the order of v; tasks left out are released", floor=4)
+
+    def run(o):
+        f = a.fn('task.Task.children.setter')
+        cfg = cfg_of(f)
+        FLD = '_Task__children'
+        evs = a.events(f)
+        writes = [e for e in evs if e.kind == 'write']
+        # (a) in-place clear, no rebinding
+        clears, bad = [], False
+        for e in writes:
+            w = e.w
+            if w.field != FLD:
+                continue
+            if not a.is_self(f, w.recv):
+                continue        # judged by frame / subtree_follows
+            e.used = True
+            if w.kind == 'store':
+                o.refute(f, w.node, w.node, "children setter rebinds self.__children to another list object: facades handed out "
+                                            "earlier (x.children, wbs.roots) keep the old object and go stale; the list must be "
+                                            "emptied in place (`.clear()`)")
+                bad = True
+            elif w.kind == 'mutate:clear':
+                clears.append(e)
+            elif w.kind == 'subscript-store' and isinstance(w.node, ast.Delete):
+                clears.append(e)
+            elif w.kind == 'subscript-store' and isinstance(w.node, ast.Assign) and isinstance(w.node.value, ast.List) \
+                    and not w.node.value.elts:
+                clears.append(e)
+            else:
+                o.undecided(f, w.node, w.node, "children setter edits its own list in a way the rule does not know")
+                bad = True
+        if not clears and not bad:
+            o.refute(f, f.node, 'clear', "children setter never empties the old list: the given tasks are added to the old children "
+                                         "instead of replacing them")
+            bad = True
+        if len(clears) > 1:
+            o.undecided(f, clears[1].node, clears[1].node, "several clears")
+            bad = True
+        if bad:
+            a.leftovers(o, f, 'children setter')
+            return
+        clear = clears[0]
+        if path_atoms(a, f, clear.cn):
+            o.refute(f, clear.node, clear.node, "the old list is emptied only conditionally")
+            return
+        o.site(f, clear.node, 'in-place: ' + src(clear.node))
+
+        # (b) old children released: X.__parent = None for X over the old list, before it is emptied
+        rel = []
+        for e in writes:
+            w = e.w
+            if w.field != '_Task__parent' or a.is_self(f, w.recv):
+                continue
+            e.used = True
+            k, fo = elem_class(a, f, w.recv, e.cn)
+            if not (w.kind == 'store' and const_of(w.node.value) is None):
+                o.refute(f, w.node, w.node, f"children setter writes `{src(w.node)}`: elements are re-parented through "
+                                            f"their parent setter only; old children get parent None")
+                bad = True
+                continue
+            if k is None or k[0] not in ('live', 'copy') or k[1] != FLD:
+                o.refute(f, w.node, w.node, f"`{src(w.node)}` is applied to tasks that are not the old children")
+                bad = True
+                continue
+            hn = cfg.node_of(fo)
+            src_node = hn if k[0] == 'live' else k[2]
+            if cfg.can_reach(clear.cn, src_node) and not cfg.can_reach(src_node, clear.cn):
+                o.refute(f, fo, fo, "the old children are read after the list has been emptied: nobody is released")
+                bad = True
+                continue
+            inner = path_atoms(a, f, e.cn, since=hn)
+            if inner:
+                o.undecided(f, w.node, inner[0][0], "release of an old child depends on a condition the rule does not know")
+                bad = True
+                continue
+            rel.append(e)
+        if not rel and not bad:
+            o.refute(f, f.node, 'release', "old children keep `self` as their parent although they are taken out of the list")
+            bad = True
+        if bad:
+            a.leftovers(o, f, 'children setter')
+            return
+        o.site(f, rel[0].node, 'old children released: ' + src(rel[0].node))
+
+        # (c) re-parent the given tasks in the given order, after the clear
+        sets = [e for e in evs if e.kind == 'setter' and e.name == 'parent' and e.stmt is not None]
+        good = []
+        for e in sets:
+            e.used = True
+            st = e.stmt
+            k, fo = elem_class(a, f, e.node.value, e.cn)
+            if isinstance(st, ast.AugAssign) or not a.is_self(f, a.xp(f, st.value, e.cn)):
+                o.refute(f, st, st, f"`{src(st)}`: the given tasks must get `self` as parent")
+                bad = True
+            elif k is None or k[0] == 'other':
+                o.undecided(f, st, st, "re-parented tasks are not drawn from a loop over the assigned value")
+                bad = True
+            elif k[0] == 'arg-reordered':
+                o.refute(f, fo, fo.iter, f"the given tasks are attached in the order of `{k[1]}(...)`, not in the given order: "
+                                         f"append-at-end then yields a different children order")
+                bad = True
+            elif k[0] != 'arg':
+                o.refute(f, fo, fo.iter, "the tasks re-parented are the old children, not the assigned ones")
+                bad = True
+            else:
+                hn = cfg.node_of(fo)
+                inner = path_atoms(a, f, e.cn, since=hn)
+                if inner:
+                    o.refute(f, st, inner[0][0], f"some of the given tasks are not attached (`{src(inner[0][0])}`)")
+                    bad = True
+                elif not cfg.dominates(clear.cn, hn):
+                    o.refute(f, fo, fo, "the given tasks are attached before the old list is emptied: the clear drops them again")
+                    bad = True
+                else:
+                    good.append(e)
+        if not sets:
+            o.refute(f, f.node, 're-parent', "children setter never assigns `v.parent = self` to the given tasks")
+            bad = True
+        if bad:
+            a.leftovers(o, f, 'children setter')
+            return
+        if not a.must_pass(o, f, good, [], 'children setter'):
+            return
+        o.site(f, good[0].stmt, f"for v in value: {src(good[0].stmt)}")
+
+        # (d) tasks left out are detached - only those
+        det = [e for e in evs if e.kind == 'call' and e.name == '_detach']
+        okd = True
+        for e in det:
+            e.used = True
+            c = e.node
+            recv = c.func.value
+            k, fo = elem_class(a, f, recv, e.cn)
+            if k is None or k[0] not in ('copy', 'live') or k[1] != FLD:
+                o.refute(f, c, c, "`_detach()` is applied to tasks that are not the old children")
+                okd = False
+                continue
+            hn = cfg.node_of(fo)
+            if k[0] == 'live' and cfg.can_reach(clear.cn, hn):
+                o.refute(f, fo, fo.iter, "the loop that detaches the released tasks iterates the live list after it was emptied and "
+                                         "refilled: it sees the NEW children")
+                okd = False
+                continue
+            if k[0] == 'copy' and not cfg.can_reach(k[2], clear.cn):
+                o.refute(f, fo, fo.iter, "the copy of the old children is taken after the list was emptied")
+                okd = False
+                continue
+            inner = path_atoms(a, f, e.cn, since=hn)
+            v = recv.id
+            kept = [1 for at, pol, _ in inner if pol and (match(f"{v}._Task__parent is None", at) or match(f"{v}.parent is None", at))
+                    or (not pol and match(f"{v}._Task__parent is not None", at))]
+            notin = [1 for at, pol, _ in inner if isinstance(at, ast.Compare) and len(at.ops) == 1 and
+                     isinstance(at.ops[0], ast.NotIn if pol else ast.In) and isinstance(at.left, ast.Name) and at.left.id == v
+                     and is_arg(a, f, at.comparators[0], e.cn)]
+            if not kept and not notin:
+                o.refute(f, c, c, "every old child is detached, also the ones that stay in the new list")
+                okd = False
+            elif len(inner) > len(kept) + len(notin):
+                o.undecided(f, c, c, "detaching depends on a condition the rule does not know")
+                okd = False
+        if okd and det:
+            o.site(f, det[0].node, 'left-out tasks detached')
+        elif okd:
+            o.site(f, f.node, 'no detach call (C11 decides)')
+        a.leftovers(o, f, 'children setter')
+    ctx.guarded(o, run)
+
+
+@part
+def dependency_setters(a: A, ctx):
+    o = ctx.ob('setters_exact.dependencies', 'R11',
+               "Task.predecessors / successors = v: store a copy of exactly the given tasks in the given order; remove self from "
+               "the mirror list of every OLD element (decided on task identity, never on ids); append self to the mirror list "
+               "of every new element", floor=6)
+
+    def run(o):
+        for rel, (FLD, MIR) in DEP.items():
+            f = a.fn(f'task.Task.{rel}.setter')
+            what = f'{rel} setter'
+            cfg = cfg_of(f)
+            evs = a.events(f)
+            writes = [e for e in evs if e.kind == 'write']
+            stores = [e for e in writes if e.w.field == FLD and e.w.kind == 'store' and a.is_self(f, e.w.recv)]
+            bad = False
+            # (a) the stored list
+            if len(stores) != 1:
+                if not stores:
+                    o.refute(f, f.node, 'store', f"{what}: never stores the new list into self.{unmangle(FLD)}")
+                else:
+                    o.undecided(f, stores[1].node, stores[1].node, f"{what}: several stores of the list")
+                for e in stores:
+                    e.used = True
+                a.leftovers(o, f, what)
+                continue
+            store = stores[0]
+            store.used = True
+            st = store.node
+            if isinstance(st, ast.AugAssign):
+                o.refute(f, st, st, f"{what}: adds to the old list instead of replacing it")
+                a.leftovers(o, f, what)
+                continue
+            v, vn, hops = resolve(f, st.value, store.cn)
+            t = norm_list(v)
+            if t[0] == 'filter' and t[3] and is_arg(a, f, t[1], vn):
+                o.refute(f, st, st.value, f"{what}: stores a filtered list `{src(v)[:70]}`: not exactly the given tasks")
+                bad = True
+            elif t[0] == 'filter' and not t[3] and is_arg(a, f, t[1], vn):
+                pass
+            elif match("_to_list($x)", v) and is_arg(a, f, v, vn) and a.eff.returns_fresh(a.fn('task._to_list')):
+                pass        # _to_list builds a new list on every path: storing it is storing a private copy
+            elif is_arg(a, f, v, vn):
+                o.refute(f, st, st.value, f"{what}: stores the caller's list object itself (no copy): later edits of that list by the "
+                                          f"caller change the task's {rel} behind the mirror updates")
+                bad = True
+            elif t[0] in ('concat',):
+                o.refute(f, st, st.value, f"{what}: stores `{src(v)[:70]}`: not exactly the given tasks")
+                bad = True
+            elif t[0] == 'ref' and isinstance(v, ast.Call) and isinstance(v.func, ast.Name) and v.func.id in ORDER_BREAKERS + ('tuple',):
+                o.refute(f, st, st.value, f"{what}: stores `{src(v)[:70]}`: order / list type of the given tasks is lost")
+                bad = True
+            else:
+                o.undecided(f, st, st.value, f"{what}: stored value is not a copy of the given list")
+                bad = True
+            if path_atoms(a, f, store.cn):
+                o.refute(f, st, st, f"{what}: the list is stored only conditionally")
+                bad = True
+            if bad:
+                a.leftovers(o, f, what)
+                continue
+            o.site(f, st, src(st))
+
+            # (b) / (c) mirror updates
+            rem_ok, add_ok = [], []
+            for e in writes:
+                w = e.w
+                if e is store:
+                    continue
+                if w.field == FLD and a.is_self(f, w.recv):
+                    e.used = True
+                    o.undecided(f, w.node, w.node, f"{what}: edits its own list in place next to the store")
+                    bad = True
+                    continue
+                if w.field not in (FLD, MIR) or a.is_self(f, w.recv):
+                    continue        # judged by frame
+                e.used = True
+                if w.field == FLD:
+                    o.refute(f, w.node, w.node, f"{what}: edits `{unmangle(FLD)}` of another task; the mirror of {rel} is "
+                                                f"`{unmangle(MIR)}`")
+                    bad = True
+                    continue
+                k, fo = elem_class(a, f, w.recv, e.cn)
+                if k is None or k[0] == 'other':
+                    o.undecided(f, w.node, w.node, f"{what}: mirror update on a task of unknown origin")
+                    bad = True
+                    continue
+                hn = cfg.node_of(fo)
+                # whose elements: a loop over the own field sees the old list before the store and the new one after it
+                if k[0] in ('arg', 'arg-reordered'):
+                    side = 'new'
+                elif k[1] != FLD:
+                    o.refute(f, fo, fo.iter, f"{what}: mirror update ranges over `{src(fo.iter)}`, not over the old or new {rel}")
+                    bad = True
+                    continue
+                else:
+                    ref = hn if k[0] == 'live' else k[2]
+                    side = 'new' if (cfg.can_reach(store.cn, ref) and not cfg.can_reach(ref, store.cn)) else 'old'
+                    if k[0] == 'live' and cfg.can_reach(hn, store.cn) and cfg.can_reach(store.cn, hn):
+                        o.undecided(f, fo, fo, f"{what}: the list is stored inside the loop that walks it")
+                        bad = True
+                        continue
+                inner = path_atoms(a, f, e.cn, since=hn)
+                vname = w.recv.id
+                if w.kind == 'mutate:remove':
+                    if side == 'new':
+                        o.refute(f, w.node, w.node, f"{what}: self is removed from the mirror list of the NEW elements; the elements "
+                                                    f"dropped from the old list keep self in their {unmangle(MIR)}")
+                        bad = True
+                        continue
+                    if not _write_arg_is_self(f, w):
+                        o.refute(f, w.node, w.node, f"{what}: removes `{src(w.node.args[0]) if w.node.args else ''}` from the mirror "
+                                                    f"list instead of self")
+                        bad = True
+                        continue
+                    verdict = _mirror_conditions(a, f, inner, vname, MIR, want_present=True, e=e)
+                    if verdict[0] == 'refute':
+                        o.refute(f, w.node, verdict[1], f"{what}: {verdict[2]}")
+                        bad = True
+                    elif verdict[0] == 'undecided':
+                        o.undecided(f, w.node, verdict[1], f"{what}: {verdict[2]}")
+                        bad = True
+                    else:
+                        rem_ok.append(e)
+                elif w.kind == 'mutate:append':
+                    if side == 'old':
+                        o.refute(f, w.node, w.node, f"{what}: self is appended to the mirror list of the OLD elements")
+                        bad = True
+                        continue
+                    if not _write_arg_is_self(f, w):
+                        o.refute(f, w.node, w.node, f"{what}: appends `{src(w.node.args[0]) if w.node.args else ''}` to the mirror "
+                                                    f"list instead of self")
+                        bad = True
+                        continue
+                    verdict = _mirror_conditions(a, f, inner, vname, MIR, want_present=False, e=e)
+                    if verdict[0] == 'refute':
+                        o.refute(f, w.node, verdict[1], f"{what}: {verdict[2]}")
+                        bad = True
+                    elif verdict[0] == 'undecided':
+                        o.undecided(f, w.node, verdict[1], f"{what}: {verdict[2]}")
+                        bad = True
+                    else:
+                        add_ok.append(e)
+                elif w.kind == 'mutate:insert':
+                    o.refute(f, w.node, w.node, f"{what}: self is inserted into the mirror list at a position; documented (and what "
+                                                f"the mirror facade's append does): appended last")
+                    bad = True
+                else:
+                    o.undecided(f, w.node, w.node, f"{what}: mirror list edited with `{w.kind}`")
+                    bad = True
+            if bad:
+                a.leftovers(o, f, what)
+                continue
+            if not rem_ok:
+                o.refute(f, f.node, 'unlink', f"{what}: self is never removed from the {unmangle(MIR)} of the old elements: dropped "
+                                              f"links survive on the mirror side")
+            elif a.must_pass(o, f, [guard_anchor(cfg, e.cn, cfg.node_of(enclosing_for_binding(f, e.cn, e.w.recv.id))) for e in rem_ok],
+                             [], what + ' (unlink old)'):
+                o.site(f, rem_ok[0].node, 'old elements: ' + src(rem_ok[0].node))
+            if not add_ok:
+                o.refute(f, f.node, 'link', f"{what}: self is never appended to the {unmangle(MIR)} of the new elements")
+            elif a.must_pass(o, f, [guard_anchor(cfg, e.cn, cfg.node_of(enclosing_for_binding(f, e.cn, e.w.recv.id))) for e in add_ok],
+                             [], what + ' (link new)'):
+                o.site(f, add_ok[0].node, 'new elements: ' + src(add_ok[0].node))
+            a.leftovers(o, f, what)
+    ctx.guarded(o, run)
+
+
+def _mirror_conditions(a: A, f, inner, v, MIR, want_present, e):
+    """conditions between the loop header and a mirror update on loop variable v.
+    accepted: `self in v.MIR` (for removals) / `self not in v.MIR` (for appends); a test of v against the assigned tasks
+    themselves (`v not in value`);  refuted: anything deciding on ids, or the membership test with the wrong polarity"""
+    for at, pol, _ in inner:
+        if isinstance(at, ast.Compare) and len(at.ops) == 1 and isinstance(at.ops[0], (ast.In, ast.NotIn)):
+            present = isinstance(at.ops[0], ast.In) == pol
+            l, r = at.left, at.comparators[0]
+            if a.is_self(f, l) and isinstance(r, ast.Attribute) and r.attr == MIR and isinstance(r.value, ast.Name) and r.value.id == v:
+                if present != want_present:
+                    return ('refute', at, f"mirror update guarded by `{src(at)}` with the wrong polarity: it never does anything")
+                continue
+            if isinstance(l, ast.Name) and l.id == v and is_arg(a, f, r, e.cn) and not mentions_id(at):
+                if want_present and present:
+                    return ('refute', at, "self is unlinked only from the elements that STAY in the list")
+                if not want_present and not present:
+                    return ('refute', at, "self is linked only to elements that are not assigned")
+                continue
+        if mentions_id(at):
+            return ('refute', at, f"the mirror update is decided by comparing ids (`{src(at)[:70]}`): a different task object with an "
+                                  f"equal id (other tree / other WBS) makes the update be skipped; decide on the task objects")
+        return ('undecided', at, f"mirror update depends on `{src(at)[:70]}`, which the rule does not know")
+    return ('ok',)
+
+
+# ====================================================================================================== parent setter
+@part
+def append_last(a: A, ctx):
+    o = ctx.ob('append_last', 'R4',
+               "Task.parent = p: self leaves the old parent's list first (old parent read before __parent is overwritten), "
+               "__parent becomes p, and self is APPENDED to p's list (never inserted); with p None inside a WBS the task is "
+               "appended to the sentinel's children", floor=4)
+
+    def run(o):
+        f = a.fn('task.Task.parent.setter')
+        cfg = cfg_of(f)
+        P = f.params[1]
+        CH, PA = '_Task__children', '_Task__parent'
+        evs = a.events(f)
+        writes = [e for e in evs if e.kind == 'write']
+        adds, rems, sets, setnone, bad = [], [], [], [], False
+
+        def is_new_parent(e):
+            return isinstance(e, ast.Name) and e.id == P
+
+        def is_old_parent(e):
+            return a.is_self_attr(f, e, PA)
+
+        for e in writes:
+            w = e.w
+            if w.field == CH and not a.is_self(f, w.recv):
+                e.used = True
+                recv = a.xp(f, w.recv, e.cn) if not isinstance(w.recv, ast.Name) or w.recv.id != P else w.recv
+                if w.kind == 'mutate:append' and is_new_parent(recv):
+                    if _write_arg_is_self(f, w):
+                        adds.append(e)
+                    else:
+                        o.refute(f, w.node, w.node, "parent setter appends something else than self to the new parent's children")
+                        bad = True
+                elif w.kind == 'mutate:insert' and is_new_parent(recv):
+                    o.refute(f, w.node, w.node, "parent setter INSERTS self into the new parent's children at a position; documented: "
+                                                "appended last (children.append, `//` and the children setter's order rely on it)")
+                    bad = True
+                elif w.kind == 'mutate:remove' and is_old_parent(recv):
+                    if _write_arg_is_self(f, w):
+                        rems.append(e)
+                    else:
+                        o.refute(f, w.node, w.node, "parent setter removes another task from the old parent's children")
+                        bad = True
+                elif w.kind == 'mutate:remove' and is_new_parent(recv):
+                    o.refute(f, w.node, w.node, "parent setter removes self from the NEW parent's children")
+                    bad = True
+                elif w.kind.startswith('mutate:') and (is_new_parent(recv) or is_old_parent(recv)):
+                    o.undecided(f, w.node, w.node, f"parent setter edits a children list with `{w.kind[7:]}`")
+                    bad = True
+                else:
+                    continue_frame = True      # other receivers: frame decides
+                    e.used = False
+            elif w.field == PA and a.is_self(f, w.recv) and w.kind == 'store':
+                e.used = True
+                v = a.xp(f, w.node.value, e.cn)
+                if is_new_parent(v):
+                    sets.append(e)
+                elif const_of(v) is None:
+                    setnone.append(e)
+                else:
+                    o.refute(f, w.node, w.node, f"parent setter stores `{src(v)}` as the parent instead of the given task")
+                    bad = True
+        if bad:
+            return
+        if not adds:
+            o.refute(f, f.node, 'append', "parent setter never appends self to the new parent's children list")
+            return
+        if not rems:
+            o.refute(f, f.node, 'remove', "parent setter never removes self from the old parent's children list: the task ends up "
+                                          "under two parents")
+            return
+        if not sets:
+            o.refute(f, f.node, 'store', "parent setter never stores the new parent")
+            return
+        # removal: only guarded by `old parent is not None` and `self in old.__children`; before the store and the append
+        for e in rems:
+            for at, pol, _ in path_atoms(a, f, e.cn):
+                if (match(f"self.{PA} is not None", at) and pol) or (match(f"self.{PA} is None", at) and not pol) or \
+                        (match(f"self.{PA}", at) and pol):
+                    continue
+                if isinstance(at, ast.Compare) and len(at.ops) == 1 and isinstance(at.ops[0], ast.In if pol else ast.NotIn) and \
+                        a.is_self(f, at.left) and match(f"self.{PA}.{CH}", at.comparators[0]):
+                    continue
+                o.undecided(f, e.node, at, "leaving the old parent depends on a condition the rule does not know (a task re-appended to "
+                                           "its own parent must still move to the end)")
+                bad = True
+            for s in sets + setnone:
+                if cfg.can_reach(s.cn, e.cn):
+                    o.refute(f, e.node, e.node, "self.__parent is overwritten before self is removed from `self.__parent.__children`: the "
+                                                "removal hits the new parent and the old parent keeps the task")
+                    bad = True
+            for ad in adds:
+                if cfg.can_reach(ad.cn, e.cn):
+                    o.refute(f, e.node, e.node, "self is removed from the old parent's list after it was appended to the new one: "
+                                                "re-appending to the same parent loses the task / does not move it last")
+                    bad = True
+        if bad:
+            return
+        o.site(f, rems[0].node, 'leaves old parent first: ' + src(rems[0].node))
+        # append: only under `parent is not None` / `self not in parent.__children`
+        for e in adds:
+            for at, pol, _ in path_atoms(a, f, e.cn):
+                if (match(f"{P} is None", at) and not pol) or (match(f"{P} is not None", at) and pol) or (match(f"{P}", at) and pol):
+                    continue
+                if isinstance(at, ast.Compare) and len(at.ops) == 1 and isinstance(at.ops[0], ast.NotIn if pol else ast.In) and \
+                        a.is_self(f, at.left) and match(f"{P}.{CH}", at.comparators[0]):
+                    continue
+                o.undecided(f, e.node, at, "joining the new parent depends on a condition the rule does not know")
+                bad = True
+        for e in sets:
+            for at, pol, _ in path_atoms(a, f, e.cn):
+                if (match(f"{P} is None", at) and not pol) or (match(f"{P} is not None", at) and pol) or (match(f"{P}", at) and pol):
+                    continue
+                o.undecided(f, e.node, at, "storing the new parent depends on a condition the rule does not know")
+                bad = True
+        if bad:
+            return
+        o.site(f, adds[0].node, 'appended: ' + src(adds[0].node))
+        o.site(f, sets[0].node, src(sets[0].node))
+        # p None: sentinel append (inside a WBS) or __parent = None (free task)
+        roots = [e for e in evs if e.kind == 'call' and e.name == 'append' and isinstance(e.node, ast.Call)
+                 and any(t.qual == 'task._ChildrenList.append' for t in e.ci.targets)]
+        for e in roots:
+            e.used = True
+            c = e.node
+            recv = a.xp(f, c.func.value, e.cn)
+            if not ((match("self._Task__wbs._root().children", recv) or match("self._Task__wbs._WBS__root.children", recv))
+                    and len(c.args) == 1 and a.is_self(f, c.args[0])):
+                o.refute(f, c, c, "with parent None inside a WBS the task must be appended to the sentinel's children "
+                                  "(`self.__wbs._root().children.append(self)`)")
+                bad = True
+                continue
+            atoms = path_atoms(a, f, e.cn)
+            if not any(match(f"{P} is None", at) and pol or match(f"{P} is not None", at) and not pol for at, pol, _ in atoms):
+                o.refute(f, c, c, "the task is moved under the sentinel although a parent was given")
+                bad = True
+        if bad:
+            return
+        for e in evs:      # WBS membership bookkeeping of the moved task itself (C11 decides what it must be)
+            if e.kind == 'call' and e.name in ('_attach', '_detach') and isinstance(e.node, ast.Call) and \
+                    isinstance(e.node.func, ast.Attribute) and a.is_self(f, e.node.func.value):
+                e.used = True
+        anchors = [e.cn for e in sets + setnone + roots]
+        # every accepted path stores a parent (given / None) or delegates to the sentinel append
+        if not a.must_pass(o, f, anchors, [], 'parent setter'):
+            return
+        # on the path of a given parent the append (or its `not in` guard) is always met
+        add_anchor = [guard_anchor(cfg, e.cn, s.cn) for e in adds for s in sets if cfg.dominates(s.cn, e.cn)]
+        if not add_anchor:
+            add_anchor = [guard_anchor(cfg, e.cn, None) for e in adds]
+            o.undecided(f, adds[0].node, adds[0].node, "the append is not dominated by the store of the new parent")
+            return
+        for s in sets:
+            # from the store, can the exit be reached without meeting the append (or its accepted guard)?
+            avoid = {n.id for n in add_anchor}
+            seen, todo, esc = {s.cn.id}, [s.cn], False
+            while todo and not esc:
+                n = todo.pop()
+                for x in n.succ:
+                    if x.id in seen or x.id in avoid:
+                        continue
+                    if x is cfg.exit:
+                        esc = True
+                        break
+                    seen.add(x.id)
+                    todo.append(x)
+            if esc:
+                o.refute(f, s.node, 'append skipped', "after storing the new parent some path returns without appending self to the "
+                                                      "parent's children")
+                return
+        o.site(f, (roots[0].node if roots else setnone[0].node if setnone else f.node), 'parent None: sentinel append / __parent = None')
+        a.leftovers(o, f, 'parent setter')
+    ctx.guarded(o, run)
+
+
+@part
+def subtree_follows(a: A, ctx):
+    o = ctx.ob('subtree_follows', 'R9',
+               "re-parenting never writes the moved task's own __children, __predecessors or __successors (the subtree and "
+               "the links travel with the task); _attach / _detach write nothing but __wbs, down the subtree", floor=4)
+
+    def run(o):
+        f = a.fn('task.Task.parent.setter')
+        ok = True
+        for e in a.events(f):
+            if e.kind == 'write' and e.w.field in ('_Task__children', '_Task__predecessors', '_Task__successors'):
+                if a.is_self(f, e.w.recv):
+                    o.refute(f, e.node, e.node, f"parent setter edits {unmangle(e.w.field)} of the moved task itself: its subtree / "
+                                                f"links do not follow it unchanged")
+                    ok = False
+                elif e.w.field != '_Task__children':
+                    o.refute(f, e.node, e.node, f"parent setter edits dependency links (`{src(e.node)[:60]}`)")
+                    ok = False
+            if e.kind == 'setter' and e.name in ('children', 'predecessors', 'successors'):
+                o.refute(f, e.stmt or e.node, e.node, f"parent setter assigns `{src(e.node)}`: re-parenting must not rebuild another relation")
+                ok = False
+        if ok:
+            o.site(f, f.node, 'no write to self.__children / links')
+        f = a.fn('task.Task.children.setter')
+        ok = True
+        for e in a.events(f):
+            if e.kind == 'write' and e.w.field in ('_Task__children', '_Task__predecessors', '_Task__successors') and \
+                    not a.is_self(f, e.w.recv):
+                o.refute(f, e.node, e.node, f"children setter edits {unmangle(e.w.field)} of an element (`{src(e.node)[:60]}`): "
+                                            f"an attached task must bring its subtree and links unchanged")
+                ok = False
+            if e.kind == 'setter' and e.name in ('children', 'predecessors', 'successors'):
+                o.refute(f, e.stmt or e.node, e.node, f"children setter assigns `{src(e.node)}` of another task")
+                ok = False
+        if ok:
+            o.site(f, f.node, 'elements: only parent is assigned')
+        for q in ('task.Task._attach', 'task.Task._detach'):
+            f = a.fn(q)
+            ok = True
+            for e in a.events(f):
+                if e.kind == 'write' and not (e.w.field == '_Task__wbs' and a.is_self(f, e.w.recv)):
+                    o.refute(f, e.node, e.node, f"{f.name} writes `{src(e.node)[:60]}`; it may only set the task's own __wbs")
+                    ok = False
+                elif e.kind == 'setter':
+                    o.refute(f, e.stmt or e.node, e.node, f"{f.name} assigns a relation (`{src(e.node)}`)")
+                    ok = False
+                elif e.kind == 'call':
+                    c = e.node
+                    recv = c.func.value if isinstance(c, ast.Call) and isinstance(c.func, ast.Attribute) else None
+                    k = None
+                    if isinstance(recv, ast.Name):
+                        fo = enclosing_for_binding(f, e.cn, recv.id)
+                        if fo is not None:
+                            it = a.xp(f, fo.iter, cfg_of(f).node_of(fo))
+                            s0 = list_source(norm_list(it)) if norm_list(it)[0] in ('ref', 'filter') else None
+                            if s0 is not None and isinstance(s0, ast.Attribute) and a.is_self(f, s0.value) and \
+                                    s0.attr in ('children', '_Task__children'):
+                                k = 'child'
+                    if not (e.name == f.name and k == 'child'):
+                        o.refute(f, c, c, f"{f.name} calls `{src(c)[:60]}`; it may only recurse into the task's own children")
+                        ok = False
+            if ok:
+                o.site(f, f.node, 'writes only self.__wbs, recurses into self.children')
+    ctx.guarded(o, run)
 
 
 # @@SECTIONS@@
